@@ -69,6 +69,7 @@ def conservation(ctx, prog, name):
     n_src = 0
     n_order = [0]
     order_bad = [None]
+    peek_bad = [None]
     for p in paths:
         holders = {'self.rbuf': {'B0'}}
         sources = {'B0'}
@@ -179,6 +180,11 @@ def conservation(ctx, prog, name):
         held = set(holders['self.rbuf'])
         if p.kind == 'return':
             held |= toks(p.outcome[1])
+            if name == 'peek' and peek_bad[0] is None:
+                # peek does not consume: everything it returns is still in the buffer afterwards
+                rt = toks(p.outcome[1]) - empty
+                if rt and not rt <= set(holders['self.rbuf']):
+                    peek_bad[0] = (p, rt - set(holders['self.rbuf']))
         lost = sources - empty - held
         if lost and worst is None:
             worst = (p, lost, holders)
@@ -198,6 +204,10 @@ def conservation(ctx, prog, name):
         ctx.ob('T10', construct, 'every byte token (buffer at entry, each successful socket/inner receive) is held by the return '
                'value or self.rbuf on all %d exits, normal and exceptional' % len(paths), True, loc=fn.loc,
                detail='%d receive events tracked' % n_src, nontrivial=True)
+    if name == 'peek':
+        pb = peek_bad[0]
+        ctx.ob('T8.peek', construct, 'peek does not consume: every byte it returns is still held by the receive buffer on return',
+               pb is None, loc=fn.loc, path=pb[0].describe() if pb else None)
     if n_order[0]:
         ob = order_bad[0]
         ctx.ob('T10o', construct, 'a concatenation stored back into the receive buffer keeps arrival order (bytes received earlier come '
